@@ -116,6 +116,8 @@ func slotAlts() []slotAlt {
 		{label: "[1]string", typ: "[1]string"},
 		{label: "[3]Color", typ: "[3]Color", local: true},
 		{label: "[2][2]int", typ: "[2][2]int"},
+		{label: "[8][]int", typ: "[8][]int"},
+		{label: "[8]map[string]int", typ: "[8]map[string]int"},
 		{label: "[2][]int", typ: "[2][]int"},
 		{label: "[][2]int", typ: "[][2]int"},
 		{label: "map[string]string", typ: "map[string]string"},
@@ -264,7 +266,7 @@ func TypesWith(c explore.Chooser, opt TypesOpt) *prog.Program {
 	enumForm := s.Pick("enum.form", "iota-uint8", "explicit-int-unexported-middle", "string", "alias-member", "unexported-first", "other-file", "negative", "bool-backed", "float-backed", "dup-values")
 	unionForm := s.Pick("union.members", "2-structs", "1-struct", "named-int-member", "named-slice-member", "named-map-member", "pointer-receiver-non-member", "extra-marker-method", "enum-member", "member-in-other-file", "member-by-embedding")
 	second := s.Pick("union.second", "none", "shares-member-different-prefix", "shares-member-same-prefix", "same-name-in-sub", "disjoint")
-	container := s.Pick("union.container", "named-slice", "named-map", "named-array", "none", "named-map-enum-key", "named-map-named-key")
+	container := s.Pick("union.container", "named-slice", "named-map", "named-array", "none", "named-map-enum-key", "named-map-named-key", "two-named-slices", "two-named-maps", "named-array-5")
 	alts := slotAlts()
 	if opt.NoUnsupported {
 		var k []slotAlt
@@ -437,6 +439,17 @@ func TypesWith(c explore.Chooser, opt TypesOpt) *prog.Program {
 	case "named-array":
 		add("type ShapePair [2]Shape")
 		contField = "\tAll ShapePair\n"
+	case "two-named-slices": // two named slices over one union
+		add("type Shapes []Shape")
+		add("type Foreground []Shape")
+		contField = "\tAll  Shapes\n\tFore Foreground\n"
+	case "two-named-maps":
+		add("type ShapeMap map[string]Shape")
+		add("type ShapeByID map[int]Shape")
+		contField = "\tAll  ShapeMap\n\tByID ShapeByID\n"
+	case "named-array-5": // longer than the 3 to 7 elements of a generated random slice can be
+		add("type ShapeRow [8]Shape")
+		contField = "\tAll ShapeRow\n"
 	case "named-map-enum-key":
 		add("type ShapeByColor map[Color]Shape")
 		contField = "\tAll ShapeByColor\n"
